@@ -331,7 +331,7 @@ func (comp *Compiler) createRangeBdry(node parse.Node,
 		if parsedRangeBdry.Min {
 			start = base_min
 		} else {
-			start, err = rangeBdrySlice.Parse(parsedRangeBdry.Start, 0, 64)
+			start, err = rangeBdrySlice.Parse(parsedRangeBdry.Start, 10, 64)
 			if err != nil {
 				comp.error(node, err)
 			}
@@ -343,7 +343,7 @@ func (comp *Compiler) createRangeBdry(node parse.Node,
 		if parsedRangeBdry.Max {
 			end = base_max
 		} else {
-			end, err = rangeBdrySlice.Parse(parsedRangeBdry.End, 0, 64)
+			end, err = rangeBdrySlice.Parse(parsedRangeBdry.End, 10, 64)
 			if err != nil {
 				comp.error(node, err)
 			}
